@@ -15,6 +15,7 @@ Section Src.
   Definition src_load_result := load_result src_facts create_out load_out cls_gram.
   Definition src_history_independent := history_independent src_facts create_out load_out cls_gram src_good.
   Definition src_history_independent_repo := history_independent_repo src_facts create_out load_out cls_gram src_good.
+  Definition src_nested_provider_inner := nested_provider_inner src_facts create_out load_out cls_gram src_good.
   Definition src_create_independent := create_independent src_facts create_out load_out cls_gram src_good.
 End Src.
 
@@ -48,3 +49,13 @@ Lemma wit_memo_visible :
   good good_facts = true /\ f_gp_key_memo good_facts = false /\
   co wit_cfg {| gv_memo := negb (c_memo wit_cfg); gv_cache := [] |} <> co wit_cfg {| gv_memo := c_memo wit_cfg; gv_cache := [] |}.
 Proof. cbn. repeat split; discriminate. Qed.
+
+(* non-vacuity for the nested-load theorem: an oracle that ignores the counters, two slots, a nested load *)
+Definition wit_load_blind (_ : cfg) (i : nat) (v : view) : lres :=
+  {| l_kind := LOk; l_dump := i + length (v_caches v); l_leak := []; l_files := [] |}.
+Lemma wit_blind : instr_blind wit_load_blind.
+Proof. intros c i v l. reflexivity. Qed.
+Lemma wit_nested_slots :
+  slots (final src_facts wit_create wit_load_blind [New 0 wit_cfg; New 1 wit_repo_cfg; Nested 0 4 PhProvider 1 5; Nested 1 6 PhAfter 0 1]) 0 <> None /\
+  slots (final src_facts wit_create wit_load_blind [New 0 wit_cfg; New 1 wit_repo_cfg; Nested 0 4 PhProvider 1 5; Nested 1 6 PhAfter 0 1]) 1 <> None.
+Proof. split; vm_compute; discriminate. Qed.
